@@ -35,6 +35,18 @@ fn gen_change(rng: &mut Rng, text: &str) -> String {
 
 pub fn gen_c08(rng: &mut Rng, n: usize, out: &mut Vec<String>) {
     for it in 0..n {
+        if it % 12 == 9 {
+            // the text AnalyzedSource::update ends with must be the changed text, also when the change covers
+            // every token but not the whitespace in front of the first one
+            let lead = *rng.pick(&["\n\n", "  ", "\r\n\r\n", "\t\n ", "\n"]);
+            let body = gen_doc_text(rng, 12);
+            let text = format!("{}x{}", lead, body);
+            let lo = 1 + rng.below(lead.len());
+            let lo = if text.is_char_boundary(lo) { lo } else { lead.len() };
+            let ins = gen_doc_text(rng, 4);
+            out.push(format!("PROPINCTEXT {} {} {} {}", hex_str(&text), lo, text.len(), hex_str(&ins)));
+            out.push(format!("PROPINCTEXT {} {} {} {}", hex_str(&text), lead.len(), text.len(), hex_str(&ins)));
+        }
         if it % 12 == 5 {
             // "a range the server reports, sent back as a request position, addresses that same token":
             // the START of every identifier token (compact layouts: directly after the previous token)
